@@ -431,32 +431,37 @@ def rescheduleAllAsFaults (qs : QuantSpec) (q : Queue) (faultExp : Int) : Except
     wanted early sectors are taken out for re-scheduling.  (The Rust skips the write-back when
     nothing was found; writing back unchanged values is the same.)  Entries left empty are deleted.
     Returns (queue, remaining, sectors to reschedule, recovered power). -/
+def recoverEntry (m : List (Nat × SectorInfo)) (es : ExpSet) (rem : NatSet) :
+    ExpSet × NatSet × List SectorInfo × PowerPair :=
+  let onHit := es.onTime.filter (fun u => decide (u ∈ rem))
+  let rem1 := rem.filter (fun u => !decide (u ∈ es.onTime))
+  let earlyHit := es.early.filter (fun u => decide (u ∈ rem1))
+  let rem2 := rem1.filter (fun u => !decide (u ∈ es.early))
+  let onInfos := lookupInfos m onHit
+  let earlyInfos := lookupInfos m earlyHit
+  ({ es with
+      active := es.active + sumPow onInfos
+      faulty := es.faulty - sumPow onInfos - sumPow earlyInfos
+      fee := es.fee - sumFee earlyInfos
+      early := diff es.early earlyHit },
+   rem2, earlyInfos, sumPow onInfos + sumPow earlyInfos)
+
 def recoverTraverse (m : List (Nat × SectorInfo)) :
     Queue → NatSet → Except Err (Queue × NatSet × List SectorInfo × PowerPair)
   | [], rem => .ok ([], rem, [], PowerPair.zero)
   | (e, es) :: rest, rem =>
-    let onHit := es.onTime.filter (fun u => decide (u ∈ rem))
-    let rem1 := rem.filter (fun u => !decide (u ∈ es.onTime))
-    let earlyHit := es.early.filter (fun u => decide (u ∈ rem1))
-    let rem2 := rem1.filter (fun u => !decide (u ∈ es.early))
-    let onInfos := lookupInfos m onHit
-    let earlyInfos := lookupInfos m earlyHit
-    let es' : ExpSet := { es with
-      active := es.active + sumPow onInfos
-      faulty := es.faulty - sumPow onInfos - sumPow earlyInfos
-      fee := es.fee - sumFee earlyInfos
-      early := diff es.early earlyHit }
-    match es'.validate with
-    | .error err => .error err
-    | .ok () =>
-      let recovered := sumPow onInfos + sumPow earlyInfos
-      if rem2.isEmpty then
-        .ok (if es'.isEmpty then rest else (e, es') :: rest, rem2, earlyInfos, recovered)
-      else match recoverTraverse m rest rem2 with
-        | .error err => .error err
-        | .ok (q', rem', resched, pow) =>
-          .ok (if es'.isEmpty then q' else (e, es') :: q', rem', earlyInfos ++ resched,
-               recovered + pow)
+    match recoverEntry m es rem with
+    | (es', rem2, earlyInfos, recovered) =>
+      match es'.validate with
+      | .error err => .error err
+      | .ok () =>
+        if rem2.isEmpty then
+          .ok (if es'.isEmpty then rest else (e, es') :: rest, rem2, earlyInfos, recovered)
+        else match recoverTraverse m rest rem2 with
+          | .error err => .error err
+          | .ok (q', rem', resched, pow) =>
+            .ok (if es'.isEmpty then q' else (e, es') :: q', rem', earlyInfos ++ resched,
+                 recovered + pow)
 
 /-- returns (queue, recovered power) -/
 def rescheduleRecovered (qs : QuantSpec) (q : Queue) (infos : List SectorInfo) :
